@@ -807,14 +807,15 @@ theorem Keeps.trans {a b c : Mem} (h1 : Keeps a b) (h2 : Keeps b c) : Keeps a c 
   ⟨Nat.le_trans h1.nextSid h2.nextSid, h2.hbase.trans h1.hbase, h2.hist.trans h1.hist, h2.readers.trans h1.readers⟩
 
 theorem gc_finish (X s : Mem) (n : Nat) (hX : MemInv X) (k : Keeps s X) (w : Option Nat) (hw : X.aofW = w) :
-    MemInv (X.gc n) ∧ Keeps s (X.gc n) ∧ (X.gc n).aofW = w := by
+    MemInv (X.gc n) ∧ Keeps s (X.gc n) ∧ (X.gc n).aofW = w ∧ (X.gc n).pendA = X.pendA := by
   obtain ⟨h2, f2⟩ := gc_inv X n hX
-  exact ⟨h2, k.trans f2.keeps, f2.aofW.trans hw⟩
+  exact ⟨h2, k.trans f2.keeps, f2.aofW.trans hw, f2.pendA⟩
 
 theorem finishAof_inv (s : Mem) (cur : Nat) (isCurrent : Bool) (hi : MemInv s)
     (hw : isCurrent = false → s.aofW ≠ some cur) :
     MemInv (s.finishAof cur isCurrent) ∧ Keeps s (s.finishAof cur isCurrent) ∧
-      (s.finishAof cur isCurrent).aofW = (if isCurrent then none else s.aofW) := by
+      (s.finishAof cur isCurrent).aofW = (if isCurrent then none else s.aofW) ∧
+      (s.finishAof cur isCurrent).pendA = none := by
   unfold Mem.finishAof
   have hst := hi.stream
   unfold StreamInv at hst
@@ -1479,13 +1480,16 @@ theorem step_inv (s : Mem) (op : MOp) (hi : MemInv s) : MemInv (s.step op).1 := 
     simp only [Mem.step]
     have h1 := (appendRdbLoop_inv (chunk.length + 1) s chunk 0 hi).1
     split
-    · exact ⟨h1.stream, h1.rdb⟩
+    · exact hi
     · split
+      · exact ⟨h1.stream, h1.rdb⟩
       · split
-        · exact (finishRdb_inv _ false h1).1
+        · split
+          · exact (finishRdb_inv _ false h1).1
+          · exact h1
         · exact h1
-      · exact h1
   | rdbClose => exact (finishRdb_inv s false hi).1
+  | rdbFail => exact (finishRdb_inv s true hi).1
   | newAofWriter off =>
     simp only [Mem.step]
     cases hlr : mLastRight s.segs with
@@ -1530,8 +1534,10 @@ theorem step_inv (s : Mem) (op : MOp) (hi : MemInv s) : MemInv (s.step op).1 := 
       dsimp only
       have h1 := appendAofLoop_inv (chunk.length + 1) s chunk 0 hi
       split
-      · exact ⟨h1.stream, h1.rdb⟩
-      · exact h1
+      · exact hi
+      · split
+        · exact ⟨h1.stream, h1.rdb⟩
+        · exact h1
   | aofClose =>
     simp only [Mem.step]
     cases haw : s.aofW with
@@ -1881,36 +1887,140 @@ theorem retry_histStep (s : Mem) (hi : MemInv s) :
               · exact ⟨.same k1.hbase k1.hist, nob _ k1.hist⟩
             · exact ⟨.same k1.hbase k1.hist, nob _ k1.hist⟩
 
-/-- **the ghost is tied.** One operation leaves the written history alone, or appends to it
-    bytes of the chunk handed to the stream writer (by this call, or by an earlier call
-    that was blocked on capacity and is now retried), or starts a new, empty history. -/
+theorem pieceSpace_pos (logSize segLen bufLen : Nat) (hb : 0 < bufLen) : 0 < (pieceSpace logSize segLen bufLen).1 := by
+  unfold pieceSpace
+  split
+  · exact hb
+  · rename_i hl
+    split
+    · show 0 < min bufLen logSize; omega
+    · rename_i hc
+      show 0 < min bufLen (logSize - segLen); omega
+
+theorem retry_same_of_no_pendA (s : Mem) (hi : MemInv s) (hpa : s.pendA = none) :
+    s.retry.1.hbase = s.hbase ∧ s.retry.1.hist = s.hist := by
+  unfold Mem.retry
+  rw [hpa]
+  dsimp only
+  cases hpr : s.pendR with
+  | none => exact ⟨rfl, rfl⟩
+  | some buf =>
+    dsimp only
+    cases hr : s.rdb with
+    | none => dsimp only; exact ⟨rfl, rfl⟩
+    | some r =>
+      dsimp only
+      split
+      · exact ⟨rfl, rfl⟩
+      · obtain ⟨h1, k1⟩ := appendRdbLoop_inv (buf.length + 1) s buf 0 hi
+        split
+        · exact ⟨k1.hbase, k1.hist⟩
+        · have h2 : MemInv { (Mem.appendRdbLoop (buf.length + 1) s buf 0).1 with pendR := none } := ⟨h1.stream, h1.rdb⟩
+          split
+          · split
+            · obtain ⟨_, k2, _⟩ := finishRdb_inv _ false h2
+              exact ⟨k2.hbase.trans k1.hbase, k2.hist.trans k1.hist⟩
+            · exact ⟨k1.hbase, k1.hist⟩
+          · exact ⟨k1.hbase, k1.hist⟩
+
+/-- an append that is not blocked appends the whole chunk (the writer is attached, fuel suffices) -/
+theorem appendAofLoop_complete (fuel : Nat) : ∀ (s : Mem) (buf : Bytes) (done : Nat), MemInv s → s.aofW.isSome = true →
+    buf.length < fuel → (Mem.appendAofLoop fuel s buf done).2.2 = false →
+    (Mem.appendAofLoop fuel s buf done).2.1 = done + buf.length := by
+  induction fuel with
+  | zero => intro s buf done _ _ hf; omega
+  | succ fuel ih =>
+    intro s buf done hi haw hf hnb
+    rw [appendAofLoop_succ] at hnb ⊢
+    by_cases hb : buf.isEmpty = true
+    · simp only [hb, if_true]
+      have : buf = [] := List.isEmpty_iff.mp hb
+      simp [this]
+    · simp only [hb, if_false, Bool.false_eq_true] at hnb ⊢
+      cases hw : s.aofW with
+      | none => rw [hw] at haw; cases haw
+      | some cur =>
+        rw [hw] at hnb
+        dsimp only at hnb ⊢
+        have hst := hi.stream
+        obtain ⟨last, hlast, hsid⟩ := hst.writer cur hw
+        have hfind : mFind s.segs cur = some last := by
+          rw [← hsid]; exact mFind_of_mem hst.nodup (List.mem_of_getLast? hlast)
+        rw [hfind] at hnb ⊢
+        dsimp only at hnb ⊢
+        obtain ⟨h1, w1⟩ := aofRotate_inv s cur last (pieceSpace s.logSize last.data.length buf.length).2 hi hw hfind
+        obtain ⟨h2, f2⟩ := ensure_inv _ (pieceSpace s.logSize last.data.length buf.length).1 h1
+        have hne : 0 < buf.length := by
+          cases buf with
+          | nil => simp at hb
+          | cons x t => simp
+        have hsp := pieceSpace_pos s.logSize last.data.length buf.length hne
+        split at hnb
+        · simp at hnb
+        · rename_i hfit
+          rw [if_neg hfit]
+          have h3 := aofPut_inv _ _ (buf.take (pieceSpace s.logSize last.data.length buf.length).1) h2 (by rw [f2.aofW, w1])
+          have hw3 : (aofPut ((aofRotate s cur last (pieceSpace s.logSize last.data.length buf.length).2).1.ensure
+              (pieceSpace s.logSize last.data.length buf.length).1).1
+              (aofRotate s cur last (pieceSpace s.logSize last.data.length buf.length).2).2
+              (buf.take (pieceSpace s.logSize last.data.length buf.length).1)).aofW.isSome = true := by
+            show (((aofRotate s cur last _).1.ensure _).1).aofW.isSome = true
+            rw [f2.aofW, w1]; rfl
+          have := ih _ (buf.drop (pieceSpace s.logSize last.data.length buf.length).1)
+            (done + (buf.take (pieceSpace s.logSize last.data.length buf.length).1).length) h3 hw3
+            (by simp; omega) hnb
+          rw [this]
+          simp
+          omega
+
+def MOp.resetsHistory : MOp → Bool
+  | .newRdbWriter _ _ => true
+  | .delRunId _ => true
+  | .newAofWriter _ => true      -- the first writer of a history (nothing held)
+  | _ => false
+
+/-- **the ghost is tied.** One operation leaves the written history alone; or it is an
+    `aofAppend chunk` that reports `.ok` and recorded the WHOLE chunk, or reports
+    `.blocked n` and recorded exactly the first `n` bytes, the rest waiting in `pendA`;
+    or it is the retry of such a blocked append and records a prefix of what was
+    waiting (all of it, or the rest keeps waiting); or it is one of the three
+    operations that start a new, empty history. -/
 theorem step_hist (s : Mem) (op : MOp) (hi : MemInv s) :
     ((s.step op).1.hbase = s.hbase ∧ (s.step op).1.hist = s.hist) ∨
-    (∃ chunk k, op = .aofAppend chunk ∧ (s.step op).1.hbase = s.hbase ∧ (s.step op).1.hist = s.hist ++ chunk.take k) ∨
+    (∃ chunk, op = .aofAppend chunk ∧ (s.step op).1.hbase = s.hbase ∧
+        (((s.step op).2 = .ok ∧ (s.step op).1.hist = s.hist ++ chunk) ∨
+         (∃ n, (s.step op).2 = .blocked n ∧ (s.step op).1.hist = s.hist ++ chunk.take n ∧
+            (s.step op).1.pendA = some (chunk.drop n)))) ∨
     (∃ buf k, op = .retryAppend ∧ s.pendA = some buf ∧ (s.step op).1.hbase = s.hbase ∧
-        (s.step op).1.hist = s.hist ++ buf.take k) ∨
-    (s.step op).1.hist = [] := by
+        (s.step op).1.hist = s.hist ++ buf.take k ∧
+        ((s.step op).1.pendA = some (buf.drop k) ∨ (s.step op).1.pendA = none)) ∨
+    ((s.step op).1.hist = [] ∧ op.resetsHistory = true) := by
   cases op with
   | setRunId id => exact Or.inl ⟨rfl, rfl⟩
   | delRunId id =>
     simp only [Mem.step]
     split
     · exact Or.inl ⟨rfl, rfl⟩
-    · exact Or.inr (Or.inr (Or.inr rfl))
-  | newRdbWriter off size => exact Or.inr (Or.inr (Or.inr rfl))
+    · exact Or.inr (Or.inr (Or.inr ⟨rfl, rfl⟩))
+  | newRdbWriter off size => exact Or.inr (Or.inr (Or.inr ⟨rfl, rfl⟩))
   | rdbAppend chunk =>
     simp only [Mem.step]
     obtain ⟨h1, k1⟩ := appendRdbLoop_inv (chunk.length + 1) s chunk 0 hi
     split
-    · exact Or.inl ⟨k1.hbase, k1.hist⟩
+    · exact Or.inl ⟨rfl, rfl⟩
     · split
-      · split
-        · obtain ⟨_, k2, _⟩ := finishRdb_inv _ false h1
-          exact Or.inl ⟨k2.hbase.trans k1.hbase, k2.hist.trans k1.hist⟩
-        · exact Or.inl ⟨k1.hbase, k1.hist⟩
       · exact Or.inl ⟨k1.hbase, k1.hist⟩
+      · split
+        · split
+          · obtain ⟨_, k2, _⟩ := finishRdb_inv _ false h1
+            exact Or.inl ⟨k2.hbase.trans k1.hbase, k2.hist.trans k1.hist⟩
+          · exact Or.inl ⟨k1.hbase, k1.hist⟩
+        · exact Or.inl ⟨k1.hbase, k1.hist⟩
   | rdbClose =>
     obtain ⟨_, k2, _⟩ := finishRdb_inv s false hi
+    exact Or.inl ⟨k2.hbase, k2.hist⟩
+  | rdbFail =>
+    obtain ⟨_, k2, _⟩ := finishRdb_inv s true hi
     exact Or.inl ⟨k2.hbase, k2.hist⟩
   | newAofWriter off =>
     simp only [Mem.step]
@@ -1943,8 +2053,6 @@ theorem step_hist (s : Mem) (op : MOp) (hi : MemInv s) :
       · rename_i hne
         have hro : r = off := by simpa using hne
         subst hro
-        have h1 := step_inv s (.newAofWriter r) hi
-        -- the state with the new segment appended
         rw [mLastRight_eq] at hlr
         cases hl : s.segs.getLast? with
         | none => rw [hl] at hlr; cases hlr
@@ -1964,7 +2072,7 @@ theorem step_hist (s : Mem) (op : MOp) (hi : MemInv s) :
             { sid := s.nextSid, left := off, data := [], closed := false, next := none } rfl rfl (by simp),
          hi.rdb.mono (Nat.le_succ _)⟩
       have := tail _ hs1 rfl
-      exact Or.inr (Or.inr (Or.inr this.2))
+      exact Or.inr (Or.inr (Or.inr ⟨this.2, rfl⟩))
   | aofAppend chunk =>
     simp only [Mem.step]
     cases haw : s.aofW with
@@ -1973,8 +2081,14 @@ theorem step_hist (s : Mem) (op : MOp) (hi : MemInv s) :
       dsimp only
       obtain ⟨i1, _, i3⟩ := appendAofLoop_hist (chunk.length + 1) s chunk 0 hi
       split
-      · exact Or.inr (Or.inl ⟨chunk, _, rfl, i1, i3⟩)
-      · exact Or.inr (Or.inl ⟨chunk, _, rfl, i1, i3⟩)
+      · exact Or.inl ⟨rfl, rfl⟩
+      · split
+        · exact Or.inr (Or.inl ⟨chunk, rfl, i1, Or.inr ⟨_, rfl, by simpa using i3, rfl⟩⟩)
+        · rename_i hnb
+          have hc := appendAofLoop_complete (chunk.length + 1) s chunk 0 hi (by rw [haw]; rfl) (by omega)
+            (by simpa using hnb)
+          refine Or.inr (Or.inl ⟨chunk, rfl, i1, Or.inl ⟨rfl, ?_⟩⟩)
+          rw [i3, hc]; simp
   | aofClose =>
     simp only [Mem.step]
     cases haw : s.aofW with
@@ -1991,16 +2105,20 @@ theorem step_hist (s : Mem) (op : MOp) (hi : MemInv s) :
   | consume rid n => exact Or.inl (consume_hist s rid n)
   | closeReader rid => exact Or.inl (closeReader_hist s rid)
   | retryAppend =>
-    obtain ⟨hs, hattr⟩ := retry_histStep s hi
-    cases hs with
-    | same hb hh => exact Or.inl ⟨hb, hh⟩
-    | fresh hh => exact Or.inr (Or.inr (Or.inr hh))
-    | appended bytes hb hh =>
-      by_cases hne : bytes = []
-      · subst hne
-        have hh' : s.retry.1.hist = s.hist := by simpa using hh
-        exact Or.inl ⟨hb, hh'⟩
-      · obtain ⟨buf, k, hp, hbk⟩ := hattr bytes hh hne
-        exact Or.inr (Or.inr (Or.inl ⟨buf, k, rfl, hp, hb, by rw [← hbk]; exact hh⟩))
+    simp only [Mem.step]
+    cases hpa : s.pendA with
+    | none => exact Or.inl (retry_same_of_no_pendA s hi hpa)
+    | some buf =>
+      unfold Mem.retry
+      rw [hpa]
+      dsimp only
+      cases haw : s.aofW with
+      | none => dsimp only; exact Or.inl ⟨rfl, rfl⟩
+      | some cur =>
+        dsimp only
+        obtain ⟨i1, _, i3⟩ := appendAofLoop_hist (buf.length + 1) s buf 0 hi
+        split
+        · refine Or.inr (Or.inr (Or.inl ⟨buf, _, ?_, ?_, i1, by simpa using i3, Or.inl ?_⟩)) <;> first | rfl | trivial | simp
+        · refine Or.inr (Or.inr (Or.inl ⟨buf, _, ?_, ?_, i1, by simpa using i3, Or.inr ?_⟩)) <;> first | rfl | trivial | simp
 
 end GunYu.Store
